@@ -416,3 +416,34 @@ def c08_r7(ctx):
         fd = cls.methods.get("finish_doc")
         ok = af is not None and fd is not None and all(("self.%s" % a) in norm.stmt_text(af.node) and ("self.%s" % a) in norm.stmt_text(fd.node) for a in attrs)
         ctx.ob(cls, ok, "the per-document buffers are filled by add_field() and flushed by finish_doc()", loc=cls.loc)
+
+
+@rule("C08", "R8", "K10", "every attribute a column type's public methods read is bound somewhere",
+      min_instances=20, also=("C14",),
+      clause="For every Column / ColumnWriter / ColumnReader class: an attribute that no class of its hierarchy binds (no method, no class "
+             "body) and that no `obj.attr = ...` in the program sets is not read by any method reachable from the class's public methods "
+             "-- Column.default_value() returns self._default, so a column type without one raises AttributeError the first time a "
+             "segment lacks the column file (no document in it supplied a value).")
+def c08_r8(ctx):
+    from .common import unbound_attribute_reads
+    prog = ctx.prog
+    roots = [prog.cls("columns.Column"), prog.cls("columns.ColumnWriter"), prog.cls("columns.ColumnReader")]
+    n = 0
+    seen = set()
+    for root in roots:
+        for cls in prog.subclasses(root):
+            if cls.qualname in seen:
+                continue
+            seen.add(cls.qualname)
+            n += 1
+            bad = unbound_attribute_reads(prog, cls)
+            by = {}
+            for a, f, line, entry in bad:
+                by.setdefault(a, set()).add(f.name + "()")
+            for a in sorted(by):
+                ctx.ob(cls, False, "self.%s is bound somewhere in %s's hierarchy" % (a, cls.short.split("columns.")[-1]),
+                       detail="read by %s; nothing binds it: AttributeError at run time" % ", ".join(sorted(by[a])), loc=cls.loc)
+            if not bad:
+                ctx.ob(cls, True, "every attribute read by %s's public methods is bound" % cls.short.split("columns.")[-1], loc=cls.loc)
+    if n < 20:
+        raise AnalysisError("only %d column classes found" % n)
